@@ -110,14 +110,12 @@ Theorem c50_proxy_list_imul_negative_refuted :
 Proof. exact proxy_imul_negative_refuted. Qed.
 Print Assumptions c50_proxy_list_imul_negative_refuted.
 
-(* dict: every operation except update() (partial: update is compared with the implementation and the
-   builtin by the check only) *)
-Theorem c50_proxy_dict_is_view_partial : forall s o, wf s -> pd_guard s o = true ->
-  (match o with DUpdate _ _ => False | _ => True end) ->
+(* dict: every guarded operation (setitem / delitem / clear / pop / popitem / setdefault / update) *)
+Theorem c50_proxy_dict_is_view_guarded : forall s o, wf s -> pd_guard s o = true ->
   wf (snd (pd_step s o)) /\
   (fst (pd_step s o), to_dict (snd (pd_step s o))) = pdop_ref (to_dict s) o.
-Proof. exact proxy_dict_is_view_partial. Qed.
-Print Assumptions c50_proxy_dict_is_view_partial.
+Proof. exact proxy_dict_is_view. Qed.
+Print Assumptions c50_proxy_dict_is_view_guarded.
 
 Theorem c50_proxy_dict_pop_default_refuted :
   pd_guard pd1 (DPop 3 (Some 7)) = false /\
